@@ -29,8 +29,10 @@ RECURSIVE AsAttrs(_)
 AsAttrs(ts) == IF ts = <<>> THEN <<>> ELSE <<AsAttr(ts[1])>> \o AsAttrs(Tail(ts))
 DomFold(ts) == CanonAttrs(DFill(<<>>, AsAttrs(ts)))
 HasCollision(ts) == DomFold(ts) # ts
-\* does the dom tree d equal what DomStore predicts from the etree tree e?  (html / body may also have received merged
-\* attributes, whose interleaving with the evictions is not visible in the final tree: attributes not compared there)
+\* does the dom tree d equal what DomStore predicts from the etree tree e?
+\* ASSUMED: html / body may also have received merged attributes (startTagHtml / startTagBody), whose interleaving with the
+\* evictions is not visible in the final tree, so on those two elements a collision excuses any attribute difference.  The
+\* primitive-level Trace_TreeStore sees every attribute assignment and makes no such allowance.
 \* Ds = the deviations allowed to explain the difference
 RECURSIVE Explained(_, _, _), ExplainedAll(_, _, _)
 Explained(e, d, Ds) ==
